@@ -15,5 +15,6 @@ CONSTANTS
   AllowConcurrent = FALSE
   GcStopsOnUnreadableHunk = TRUE
   GcBandsBeforeBlocks = TRUE
+  GcRefusesHeadlessNewest = TRUE
 INVARIANTS Inv_ValidateQuietOnHealthy Inv_ValidateAdequate
 CHECK_DEADLOCK FALSE
